@@ -2586,9 +2586,11 @@ class Composite(ArmiObject):
 
     def remove(self, obj):
         """Remove a particular child."""
+        # take it out of the list first: a ValueError for an object that is not a child
+        # must not have orphaned that object from its real parent
+        self._children.remove(obj)
         obj.parent = None
         obj.spatialLocator = obj.spatialLocator.detachedCopy()
-        self._children.remove(obj)
 
     def moveTo(self, locator):
         """Move to specific location in parent. Often in a grid."""
